@@ -12,12 +12,14 @@ CONSTANTS
   DeadVals = {FALSE, TRUE}
   FixLedger = TRUE
   FixNominate = FALSE
+  FixOrphan = TRUE
   AllowMigrate = FALSE
   Recording = FALSE
   K = 0
 VIEW MCView
 INVARIANT TypeOK
 INVARIANT InvL
+INVARIANT InvR
 INVARIANT InvX1
 INVARIANT InvX2
 INVARIANT InvO
